@@ -11,6 +11,7 @@ pub mod c06;
 pub mod c07;
 pub mod c08;
 pub mod c09;
+pub mod c10;
 pub mod c11;
 pub mod c12;
 pub mod c13;
@@ -51,6 +52,15 @@ pub fn spec(id: &str) -> Option<Spec> {
             min_evaluations: 100,
             min_nontrivial: 40,
             run: c09::run,
+        },
+        "C10" => Spec {
+            id: "C10",
+            level: "exploration",
+            shards_quick: 8,
+            shards_thorough: 14,
+            min_evaluations: 100,
+            min_nontrivial: 50,
+            run: c10::run,
         },
         "C11" => Spec {
             id: "C11",
